@@ -37,8 +37,10 @@ func forall(lo, hi int, f func(int) bool) bool {
 // checkpoint that was in flight when the previous assembly failed can never
 // complete (its acknowledgements are gone): it must not survive, or every later
 // CreateCheckpoint answers "in progress".
+// (Every restart closes the source splitter of the previous assembly before it creates the new one:
+// a splitter left running keeps discovering splits and assigns them to the new assembly too - C16.)
 //@ func Job.start
-//@   property C15 C12
+//@   property C15 C12 C16
 //@   nosafety
 //@   requires j.snapshotStore != nil && j.assembly != nil && j.config != nil
 //@   order Deploy after AbortPendingCheckpoint
@@ -46,6 +48,8 @@ func forall(lo, hi int, f func(int) bool) bool {
 //@   order CurrentCheckpoint after AbortPendingCheckpoint
 //@   order Deploy after RegisterSourceSplitter
 //@   atcall Start: len(ckpt.GetSourceCheckpoints()) > 0 ==> arg0 == ckpt.SourceCheckpoints[0]
+//@   ensures old(j.sourceSplitter) != nil ==> called(Close)
+//@   order NewSourceSplitter after AbortPendingCheckpoint
 
 // ---- job status (atomic value modelled as ghost field statusVal)
 //@ type jobStatus
